@@ -3,6 +3,7 @@
   and its projection onto the uncompressed (checked) encoder of any one subset.
 -/
 import BufrModel.Lemmas.SimEnc
+import BufrModel.Lemmas.CompFactors
 set_option linter.unusedSimpArgs false
 namespace Bufr
 
@@ -211,7 +212,9 @@ def encFactorCX (s : St) : CM Val := do
 
 def encLastValuesCX (n : Nat) (s : St) : CM (List Val) := do
   let l ← encLastValues n s
-  if s.vals.all (fun row => zeroMask ((row.take s.idx).drop (s.idx - n)) == zeroMask l) then pure l
+  if s.vals.all (fun row => zeroMask ((row.take s.idx).drop (s.idx - n)) == zeroMask l) then
+    -- since the repair of finding F24b the compressed encoder itself insists on literally equal bit-maps
+    (if s.vals.all (fun row => encSlice n s.idx row == l) then pure l else .error .other)
   else .error .other
 
 /-- The CHECKED compressed encoder: `encPrimsC` with three extra refusals — the situations in which
@@ -220,7 +223,8 @@ def encLastValuesCX (n : Nat) (s : St) : CM (List Val) := do
        (out of the range of its field);
     2. replication factors that are not literally the same in all subsets (the compressed encoder
        ignores missing factors when comparing);
-    3. bitmaps whose zero entries differ between subsets (the compressed encoder looks at subset 0). -/
+    3. bitmaps that differ between subsets (before the repair of finding F24b the compressed encoder looked at
+       subset 0 only; now `encLastValuesC` refuses them itself). -/
 def encPrimsCX : Prims where
   numeric dd nb sc rf := encStepC dd (colChecked (colNumeric nb sc rf) (fldNumeric nb sc rf))
   string dd n := encStepC dd (colString n)
@@ -480,11 +484,13 @@ theorem primSim_proj (k : Nat) : PrimSim₀ encPrimsCX encPrimsU (RelProj k) whe
     simp only [bind, Except.bind, pure, Except.pure] at h
     split at h
     · rename_i hall
-      cases h
-      refine ⟨_, rfl, ?_⟩
-      rw [hvals, h4]
-      have := List.all_eq_true.mp hall row (List.mem_of_getElem? hrow)
-      simpa using this
+      split at h
+      · cases h
+        refine ⟨_, rfl, ?_⟩
+        rw [hvals, h4]
+        have := List.all_eq_true.mp hall row (List.mem_of_getElem? hrow)
+        simpa using this
+      · cases h
     · cases h
 
 /-! ### checked compressed encoder ⟶ compressed encoder -/
@@ -562,7 +568,7 @@ theorem primSim_eraseC : PrimSim₀ encPrimsCX encPrimsC (fun s t => t = s) wher
     intro i s t n l hrel h
     subst hrel
     change encLastValuesCX n t = .ok l at h
-    show ∃ l', encLastValues n t = .ok l' ∧ zeroMask l' = zeroMask l
+    show ∃ l', encLastValuesC n t = .ok l' ∧ zeroMask l' = zeroMask l
     unfold encLastValuesCX at h
     cases hv : encLastValues n t with
     | error e => rw [hv] at h; cases h
@@ -570,7 +576,11 @@ theorem primSim_eraseC : PrimSim₀ encPrimsCX encPrimsC (fun s t => t = s) wher
       rw [hv] at h
       simp only [bind, Except.bind, pure, Except.pure] at h
       split at h
-      · cases h; exact ⟨_, rfl, rfl⟩
+      · split at h
+        · next hlit =>
+          cases h
+          exact ⟨_, encLastValuesC_of hv (fun row hr => by simpa using List.all_eq_true.mp hlit row hr), rfl⟩
+        · cases h
       · cases h
 
 end Bufr
